@@ -50,6 +50,11 @@ def followup(stage, lines, model, checked, release, tier, rng):
                     a = K.api_sign(s, sk, msg, ctx) if ph is None else K.api_prehash_sign(s, sk, msg, ctx, 0, ph)
                     _st.setdefault("api", []).append(dict(set=s, ctx=ctx, msg=msg, ph=ph, pk=pk, req=a))
                     L.append(a)
+            else:
+                msg = b"pay 10 to bob"
+                a = K.api_sign(s, sk, msg)
+                _st.setdefault("api", []).append(dict(set=s, ctx=None, msg=msg, ph=None, pk=pk, req=a, dil=True))
+                L.append(a)
         return L
     if stage == 2:
         idx = {l: i for i, l in enumerate(lines)}
@@ -88,12 +93,27 @@ def followup(stage, lines, model, checked, release, tier, rng):
             if sig is None:
                 continue
             s, ctx, msg, ph, pk = e["set"], e["ctx"], e["msg"], e["ph"], e["pk"]
-            V = lambda m, c, h: K.api_verify(s, pk, m, sig, c) if h is None else K.api_prehash_verify(s, pk, m, sig, c, h)
-            e["pos"] = V(msg, ctx, ph)
-            alts = [(ctx[-1:] + msg, ctx[:-1], ph), (msg[1:], ctx + msg[:1], ph), (ctx + msg, None, ph), (ctx + msg, b"", ph),
-                    (msg, None, ph), (msg, b"", ph), (msg, ctx + b"\x00", ph), (msg, ctx[:-1], ph), (msg + b"\x00", ctx, ph),
-                    (msg, ctx, "sha512" if ph == "sha256" else "sha256"), (msg, ctx, None if ph else "sha512")]
-            e["neg"] = [V(m, c, h) for (m, c, h) in alts]
+            dil = e.get("dil", False)
+            if dil:
+                VS = lambda sg: K.api_verify(s, pk, msg, sg)
+                e["neg"] = []
+            else:
+                V = lambda m, c, h: K.api_verify(s, pk, m, sig, c) if h is None else K.api_prehash_verify(s, pk, m, sig, c, h)
+                VS = lambda sg: K.api_verify(s, pk, msg, sg, ctx) if ph is None else K.api_prehash_verify(s, pk, msg, sg, ctx, ph)
+                alts = [(ctx[-1:] + msg, ctx[:-1], ph), (msg[1:], ctx + msg[:1], ph), (ctx + msg, None, ph), (ctx + msg, b"", ph),
+                        (msg, None, ph), (msg, b"", ph), (msg, ctx + b"\x00", ph), (msg, ctx[:-1], ph), (msg + b"\x00", ctx, ph),
+                        (msg, ctx, "sha512" if ph == "sha256" else "sha256"), (msg, ctx, None if ph else "sha512")]
+                e["neg"] = [V(m, c, h) for (m, c, h) in alts]
+            e["pos"] = VS(sig)
+            # alterations of the signature through every API entry point (each has its own length gate): extended by one
+            # byte, by the message (sig || msg), by 100 bytes; truncated; single bits flipped in c~, z, the hint section
+            p = S.P(s)
+            sb = bytearray(bytes.fromhex(sig))
+            sigalts = [sig + "00", sig + "ff", sig + msg.hex(), sig + "00" * 100, sig[:-2], sig[2:], ""]
+            for pos in (0, 8 * p.ctilde + 3, 8 * (p.sig - p.omega - p.k) + 1, 8 * p.sig - 1, rng.randrange(8 * p.sig)):
+                w = bytearray(sb); w[pos // 8] ^= 1 << (pos % 8)
+                sigalts.append(w.hex())
+            e["neg"] += [VS(sg if sg else "-") for sg in sigalts]
             L.extend(e["neg"]); L.append(e["pos"])
         return L
     return []
